@@ -13,7 +13,8 @@ RULE = ('shim runs over every exit path of run_pass (normal, zero size, PassBugE
         'raise must be empty and futures/temporary_folders empty; real-pool runs with fast / failing / self-killing / hanging / '
         'forking tests: TMPDIR listing (pymp-* of multiprocessing excluded) and liveness of every recorded pid after the run; '
         'non-trivial = distinct runs that ended by an exception or cancelled/timed-out at least one candidate'
-        ' Also: kill_pid_queue called directly on a hand-made event queue over real processes (alive with a child, vanished pids) compared with the Coq active_pids; a pass run that ends by PassBugError while other tests are slow / hang; a helper process in its own session.')
+        ' Also: kill_pid_queue called directly on a hand-made event queue over real processes (alive with a child, vanished pids) compared with the Coq active_pids; a pass run that ends by PassBugError while other tests are slow / hang; a helper process in its own session.'
+        " Also (rounds 4-5): helpers ignoring SIGTERM, hanging tests that keep writing files, the 's' key, tests abandoned right after their start (pids noted by the shell; known finding late-start-unregistered reproduced with a delayed registration message, five undelayed runs).")
 TRUSTED = T0 + ['real-pool observations trust the /proc liveness probe; pebble kills its own workers (observed)']
 ASSUMPTIONS = ['pymp-* directories belong to multiprocessing.Manager, not to C-Vise',
                'processes: only the kill_pid_queue bookkeeping is proved; the window between Popen and the STARTED event, and zombie reaping, are observed only']
